@@ -29,7 +29,7 @@ TRUSTED = [
 	'b"%d" formatting and int() of ASCII digits (natToDec/decNat, validated by T2); CPython\'s 4300-digit int() limit is modelled',
 ]
 ASSUMPTIONS = ['HTTP/1.2-style requests (same major, higher minor) are answered 505 by the code (pinned by tests/api/test_statemachine.py::test_max_protocol); the oracle accepts either 505 or a 1.1 answer there']
-RULE = ('exhaustive: status codes 0-999 x 8 phrases (words, hyphen, apostrophe, empty, 8-bit), versions [0,3]x[0,11] (parse/compose, all ordered pairs for comparison, also against the version written as text with leading zeros, negotiation), methods of length <= 2 over the accepted alphabet (+ length 3 sampled), '
+RULE = ('exhaustive: status codes 0-999 x 8 phrases (words, hyphen, apostrophe, empty, 8-bit), versions [0,3]x[0,11] (parse/compose, all ordered pairs for comparison, also against the version written as text with leading zeros, negotiation, also for several requests on one connection), methods of length <= 2 over the accepted alphabet (+ length 3 sampled), '
 	'single-octet corruptions (256 values x every position) of two valid start lines; random longer methods; methods handed over as text (non-ASCII refused); sequences of 2-5 texts parsed into ONE Protocol / Status / Method / Request / Response object with composing in between; non-trivial = accepted and round-tripped; distinct by canonical output')
 
 PHRASES = [b'OK', b'Not Found', b"I'm a teapot", b'Non-Authoritative Information', b'x', b'A_b 9', b'', b'caf\xe9']
@@ -47,6 +47,9 @@ def cases(rng, tier):
 			for c in range(0, 4):
 				for d in range(0, 12):
 					yield ('cmp', a, b, c, d)
+	# several requests on ONE connection: each is answered with the lower of its own version and the server's
+	for _ in range(300):
+		yield ('negseq', tuple(rng.choice(((1, 0), (1, 0), (1, 1), (0, 9), (0, 0), (1, 1))) for _ in range(rng.randrange(2, 6))))      # versions the server speaks: a refusal ends the connection
 	# comparison with the version written as text, in every spelling the grammar allows (leading zeros), octets and str
 	for a in range(0, 4):
 		for b in range(0, 12):
@@ -85,7 +88,7 @@ def cases(rng, tier):
 		yield ('reqline', line)
 		yield ('respline', line)
 	for _ in range(n):
-		parts = [rng.choice([b'GET', b'M-SEARCH', b'get', b'G T', b'']), rng.choice([b'/', b'*', b'/a?b', b'']), rng.choice([b'HTTP/1.1', b'HTTP/1.0', b'HTTP/2.0', b'HTTP/1', b'HTTP/ 1.1'])]
+		parts = [rng.choice([b'GET', b'M-SEARCH', b'get', b'G T', b'', b'CONNECT', b'connect', b'Connect', b'options', b'OPTIONS', b'head', b'Trace']), rng.choice([b'/', b'*', b'/a?b', b'', b'h:443', b'/x']), rng.choice([b'HTTP/1.1', b'HTTP/1.0', b'HTTP/2.0', b'HTTP/1', b'HTTP/ 1.1'])]
 		yield ('reqline', rng.choice([b' ', b'  ', b'\t']).join(parts))
 		yield ('respline', rng.choice([b'HTTP/1.1', b'HTTP/1.0', b'HTTP/3.9']) + rng.choice([b' ', b'  ', b'']) + bytes(rng.choice(b'0123456789') for _ in range(rng.choice((2, 3, 3, 3, 4)))) + rng.choice([b' OK', b'  Two  words', b'', b' \xe9']))
 
@@ -128,6 +131,8 @@ def model_lines(case):
 		return ['sl.request %s' % hx(case[1])]
 	if k == 'respline':
 		return ['sl.response %s' % hx(case[1])]
+	if k == 'negseq':
+		return ['sl.negotiate %d %d' % v for v in case[1]]
 	if k == 'cmpt':
 		import re
 		m = re.match(rb'^HTTP/(\d+)\.(\d+)$', case[3])
@@ -160,6 +165,18 @@ def negotiate(a, b):
 	out = sm.parse(b'GET / HTTP/%d.%d\r\nHost: localhost\r\n\r\n' % (a, b))
 	(request, response), = out
 	return tuple(response.protocol), tuple(request.protocol)
+
+
+def negotiate_seq(versions):
+	from httoop.server import ServerStateMachine
+	sm = ServerStateMachine('http', 'localhost', 80)
+	out = []
+	for a, b in versions:
+		def f():
+			(request, response), = sm.parse(b'GET / HTTP/%d.%d\r\nHost: localhost\r\n\r\n' % (a, b))
+			return '%d %d' % tuple(response.protocol)
+		out.append(guarded(f))
+	return out
 
 
 def impl_lines(case):
@@ -209,6 +226,8 @@ def impl_lines(case):
 		return [guarded(f)]
 	if k == 'seq':
 		return seq_impl(case[1], case[2])
+	if k == 'negseq':
+		return negotiate_seq(case[1])
 	if k == 'cmpt':
 		x = Protocol((case[1], case[2]))
 		y = case[3].decode('ascii') if case[4] else case[3]
@@ -261,6 +280,12 @@ def seq_impl(kind, steps):
 
 def oracle(case):
 	"""the property on the real code"""
+	if case[0] == 'negseq':
+		got = negotiate_seq(case[1])
+		want = ['ok %d %d' % min(v, (1, 1)) for v in case[1]]
+		if got != want:
+			return {'what': 'requests %r on one connection are answered with the versions %r, the lower of request and server version is %r' % (list(case[1]), got, want), 'finding': None}
+		return None
 	if case[0] == 'cmpt':
 		from httoop.messages.protocol import Protocol
 		import re
@@ -456,6 +481,8 @@ def undescribe(d):
 		return (k, d[1], bytes.fromhex(d[2]))
 	if k == 'seq':
 		return (k, d[1], tuple(bytes.fromhex(x) for x in d[2]))
+	if k == 'negseq':
+		return (k, tuple(tuple(v) for v in d[1]))
 	if k == 'cmpt':
 		return (k, d[1], d[2], bytes.fromhex(d[3]), d[4])
 	if k == 'mtext':
